@@ -1,6 +1,7 @@
 package symex
 
 import (
+	"net/url"
 	"path"
 	"fmt"
 	"go/types"
@@ -43,10 +44,27 @@ func zeroResults(fn *ssa.Function) Value {
 
 func concStr(v Value) (string, bool) {
 	s, ok := v.(StrV)
-	if !ok || s.Atom != nil || s.Fmt != nil || s.Bytes != nil {
+	if !ok || s.Atom != nil || s.Fmt != nil || s.Bytes != nil || s.Parts != nil {
 		return "", false
 	}
 	return s.S, true
+}
+
+// structArgs: true when the first argument is a structured string (or an Itoa rendering) and the others are concrete.
+func structArg(args []Value, rest ...int) ([]StrPart, bool) {
+	if _, conc := concStr(args[0]); conc {
+		return nil, false
+	}
+	ps, ok := partsOf(args[0])
+	if !ok {
+		return nil, false
+	}
+	for _, i := range rest {
+		if _, c := concStr(args[i]); !c {
+			return nil, false
+		}
+	}
+	return ps, true
 }
 
 func mustStr(v Value, what string) string {
@@ -294,6 +312,37 @@ func init() {
 			}
 			return StrV{Fmt: &OpaqueFmt{Format: pat, Args: []Value{args[1]}}}
 		},
+		// vStrf(format string, args ...int) string: structured string, %d verbs only (natively fmt.Sprintf)
+		"vStrf": func(in *Interp, st *State, fr *Frame, fn *ssa.Function, args []Value) Value {
+			format := mustStr(args[0], "vStrf format")
+			var vals []Value
+			if sl, ok2 := args[1].(SliceV); ok2 && sl.Obj >= 0 {
+				n := in.concretize(st, sl.Len, 0, 64)
+				for i := int64(0); i < n; i++ {
+					vals = append(vals, in.sliceElem(st, sl, i))
+				}
+			}
+			var ps []StrPart
+			k := 0
+			for {
+				i := strings.Index(format, "%d")
+				if i < 0 {
+					break
+				}
+				ps = append(ps, StrPart{Lit: format[:i]})
+				if k >= len(vals) {
+					panic(unsupported("vStrf: too few arguments"))
+				}
+				ps = append(ps, StrPart{Num: vals[k].(*Term)})
+				k++
+				format = format[i+2:]
+			}
+			if strings.Contains(format, "%") {
+				panic(unsupported("vStrf: only %d verbs are supported"))
+			}
+			ps = append(ps, StrPart{Lit: format})
+			return normParts(ps)
+		},
 		// vConc(x int) int: fork on the value of x (keeps later indexing concrete)
 		"vConc": func(in *Interp, st *State, fr *Frame, fn *ssa.Function, args []Value) Value {
 			t := args[0].(*Term)
@@ -339,6 +388,50 @@ func init() {
 				return r
 			}
 			panic(unsupported("vDecIntIn: no embedded vEncInt(" + tag + ") value"))
+		},
+		// vFmtInt(s string) int: first integer argument of an opaque formatted string (first integer of a concrete one)
+		"vFmtInt": func(in *Interp, st *State, fr *Frame, fn *ssa.Function, args []Value) Value {
+			s := args[0].(StrV)
+			if c, ok := concStr(s); ok {
+				for i := 0; i < len(c); i++ {
+					if c[i] >= '0' && c[i] <= '9' {
+						j := i
+						for j < len(c) && c[j] >= '0' && c[j] <= '9' {
+							j++
+						}
+						n, _ := strconv.Atoi(c[i:j])
+						if i > 0 && c[i-1] == '-' {
+							n = -n
+						}
+						return IntC(int64(n))
+					}
+				}
+				return IntC(0)
+			}
+			if s.Parts != nil {
+				for _, p := range s.Parts {
+					if p.Num != nil {
+						return p.Num
+					}
+				}
+			}
+			if s.Fmt != nil {
+				for _, a := range s.Fmt.Args {
+					if iv, ok := a.(IfaceV); ok {
+						a = iv.V
+					}
+					if t, ok := a.(*Term); ok && t.Sort == SInt {
+						return t
+					}
+				}
+			}
+			panic(unsupported("vFmtInt: no integer in opaque string"))
+		},
+		// vThread(k int): logical thread marker for the shared-access (lockset) check
+		"vThread": func(in *Interp, st *State, fr *Frame, fn *ssa.Function, args []Value) Value {
+			st.Thread = int(constI64(args[0], "vThread"))
+			st.ThreadHeap0 = len(st.Heap)
+			return TupleV{}
 		},
 		// vLenAny(x any) int: length of the slice held in x
 		"vLenAny": func(in *Interp, st *State, fr *Frame, fn *ssa.Function, args []Value) Value {
@@ -563,15 +656,56 @@ func init() {
 			return StrV{Fmt: &OpaqueFmt{Format: "%d", Args: []Value{t}}}
 		},
 		"strings.HasPrefix": func(in *Interp, st *State, fr *Frame, fn *ssa.Function, args []Value) Value {
+			if ps, ok := structArg(args, 1); ok {
+				r, dec := hasPrefixParts(ps, mustStr(args[1], "strings.HasPrefix"))
+				if !dec {
+					panic(unsupported("strings.HasPrefix: depends on the digits of a symbolic number"))
+				}
+				return BoolC(r)
+			}
 			return BoolC(strings.HasPrefix(mustStr(args[0], "strings.HasPrefix"), mustStr(args[1], "strings.HasPrefix")))
 		},
 		"strings.HasSuffix": func(in *Interp, st *State, fr *Frame, fn *ssa.Function, args []Value) Value {
+			if ps, ok := structArg(args, 1); ok {
+				r, dec := hasSuffixParts(ps, mustStr(args[1], "strings.HasSuffix"))
+				if !dec {
+					panic(unsupported("strings.HasSuffix: depends on the digits of a symbolic number"))
+				}
+				return BoolC(r)
+			}
 			return BoolC(strings.HasSuffix(mustStr(args[0], "strings.HasSuffix"), mustStr(args[1], "strings.HasSuffix")))
 		},
 		"strings.Contains": func(in *Interp, st *State, fr *Frame, fn *ssa.Function, args []Value) Value {
+			if ps, ok := structArg(args, 1); ok {
+				pat := mustStr(args[1], "strings.Contains")
+				for _, x := range ps {
+					if x.Num == nil && strings.Contains(x.Lit, pat) {
+						return True
+					}
+				}
+				if couldOverlapNum(ps, pat) {
+					panic(unsupported("strings.Contains: pattern may overlap a symbolic number"))
+				}
+				return False
+			}
 			return BoolC(strings.Contains(mustStr(args[0], "strings.Contains"), mustStr(args[1], "strings.Contains")))
 		},
 		"strings.TrimPrefix": func(in *Interp, st *State, fr *Frame, fn *ssa.Function, args []Value) Value {
+			if ps, ok := structArg(args, 1); ok {
+				pre := mustStr(args[1], "strings.TrimPrefix")
+				r, dec := hasPrefixParts(ps, pre)
+				if !dec {
+					panic(unsupported("strings.TrimPrefix: depends on the digits of a symbolic number"))
+				}
+				if !r {
+					return args[0]
+				}
+				np, ok := dropPrefixParts(ps, len(pre))
+				if !ok {
+					panic(unsupported("strings.TrimPrefix: cut inside a symbolic number"))
+				}
+				return normParts(np)
+			}
 			return StrV{S: strings.TrimPrefix(mustStr(args[0], "strings.TrimPrefix"), mustStr(args[1], "strings.TrimPrefix"))}
 		},
 		"strings.Index": func(in *Interp, st *State, fr *Frame, fn *ssa.Function, args []Value) Value {
@@ -612,6 +746,23 @@ func init() {
 				}
 				panic(unsupported("path.Ext of opaque string"))
 			}
+			if ps, ok := structArg(args); ok {
+				for k := len(ps) - 1; k >= 0; k-- {
+					if ps[k].Num != nil {
+						continue
+					}
+					l := ps[k].Lit
+					for i := len(l) - 1; i >= 0; i-- {
+						if l[i] == '/' {
+							return StrV{}
+						}
+						if l[i] == '.' {
+							return normParts(append([]StrPart{{Lit: l[i:]}}, ps[k+1:]...))
+						}
+					}
+				}
+				return StrV{}
+			}
 			s := mustStr(args[0], "path.Ext")
 			for i := len(s) - 1; i >= 0 && s[i] != '/'; i-- {
 				if s[i] == '.' {
@@ -639,6 +790,9 @@ func init() {
 		"(*sync.RWMutex).Unlock": lockOp(false, false),
 		"(*sync.RWMutex).RLock":   lockOp(true, true),
 		"(*sync.RWMutex).RUnlock": lockOp(false, true),
+		"(*sync.WaitGroup).Add":   wgOp(0),
+		"(*sync.WaitGroup).Done":  wgOp(1),
+		"(*sync.WaitGroup).Wait":  wgOp(2),
 		"(encoding/binary.bigEndian).Uint32": func(in *Interp, st *State, fr *Frame, fn *ssa.Function, args []Value) Value {
 			return in.beUint(st, args[1].(SliceV), 4)
 		},
@@ -661,6 +815,15 @@ func (in *Interp) strSlice(st *State, ss []string) Value {
 	}
 	id := st.alloc(&ArrayV{E: e})
 	n := IntC(int64(len(ss)))
+	return SliceV{Obj: id, Off: IntC(0), Len: n, Cap: n}
+}
+
+func (in *Interp) valSlice(st *State, vals []Value) Value {
+	if len(vals) == 0 {
+		return SliceV{Obj: -1, Off: IntC(0), Len: IntC(0), Cap: IntC(0)}
+	}
+	id := st.alloc(&ArrayV{E: append([]Value(nil), vals...)})
+	n := IntC(int64(len(vals)))
 	return SliceV{Obj: id, Off: IntC(0), Len: n, Cap: n}
 }
 
@@ -719,12 +882,34 @@ func init() {
 			return StrV{S: strings.Repeat(mustStr(args[0], "Repeat"), int(constI64(args[1], "Repeat")))}
 		},
 		"strings.Split": func(in *Interp, st *State, fr *Frame, fn *ssa.Function, args []Value) Value {
+			if ps, ok := structArg(args, 1); ok {
+				sep := mustStr(args[1], "Split")
+				if !digitFree(sep) {
+					panic(unsupported("strings.Split of a structured string with a separator containing digits"))
+				}
+				var vals []Value
+				for _, piece := range splitParts(ps, sep, 0) {
+					vals = append(vals, normParts(piece))
+				}
+				return in.valSlice(st, vals)
+			}
 			return in.strSlice(st, strings.Split(mustStr(args[0], "Split"), mustStr(args[1], "Split")))
 		},
 		"strings.Fields": func(in *Interp, st *State, fr *Frame, fn *ssa.Function, args []Value) Value {
 			return in.strSlice(st, strings.Fields(mustStr(args[0], "Fields")))
 		},
 		"strings.Cut": func(in *Interp, st *State, fr *Frame, fn *ssa.Function, args []Value) Value {
+			if ps, ok := structArg(args, 1); ok {
+				sep := mustStr(args[1], "Cut")
+				if !digitFree(sep) {
+					panic(unsupported("strings.Cut of a structured string with a separator containing digits"))
+				}
+				pieces := splitParts(ps, sep, 2)
+				if len(pieces) == 1 {
+					return TupleV{args[0], StrV{}, False}
+				}
+				return TupleV{normParts(pieces[0]), normParts(pieces[1]), True}
+			}
 			a, b, ok := strings.Cut(mustStr(args[0], "Cut"), mustStr(args[1], "Cut"))
 			return TupleV{StrV{S: a}, StrV{S: b}, BoolC(ok)}
 		},
@@ -732,12 +917,55 @@ func init() {
 			sl := args[0].(SliceV)
 			n := in.concretize(st, sl.Len, 0, 4096)
 			ss := make([]string, n)
+			structured := false
 			for i := range ss {
-				ss[i] = mustStr(in.sliceElem(st, sl, int64(i)), "strings.Join")
+				e := in.sliceElem(st, sl, int64(i))
+				if c, ok := concStr(e); ok {
+					ss[i] = c
+				} else if _, ok := partsOf(e); ok {
+					structured = true
+				} else {
+					mustStr(e, "strings.Join")
+				}
+			}
+			if structured {
+				sep := mustStr(args[1], "strings.Join")
+				var ps []StrPart
+				for i := range ss {
+					if i > 0 {
+						ps = append(ps, StrPart{Lit: sep})
+					}
+					ep, _ := partsOf(in.sliceElem(st, sl, int64(i)))
+					ps = append(ps, ep...)
+				}
+				return normParts(ps)
 			}
 			return StrV{S: strings.Join(ss, mustStr(args[1], "strings.Join"))}
 		},
+		"net/url.QueryUnescape": func(in *Interp, st *State, fr *Frame, fn *ssa.Function, args []Value) Value {
+			if ps, ok := structArg(args); ok {
+				for _, x := range ps {
+					if x.Num == nil && strings.ContainsAny(x.Lit, "%+") {
+						panic(unsupported("url.QueryUnescape of a structured string with escapes"))
+					}
+				}
+				return TupleV{args[0], IfaceV{}}
+			}
+			r, err := url.QueryUnescape(mustStr(args[0], "url.QueryUnescape"))
+			if err != nil {
+				site := in.posOf(fr.Block.Instrs[fr.PC], fr)
+				id := st.alloc(OpaqueErr{Site: site, Msg: err.Error()})
+				return TupleV{StrV{}, IfaceV{T: opaqueErrType, V: PtrV{Obj: id}}}
+			}
+			return TupleV{StrV{S: r}, IfaceV{}}
+		},
 		"strconv.Atoi": func(in *Interp, st *State, fr *Frame, fn *ssa.Function, args []Value) Value {
+			if ps, ok := structArg(args); ok {
+				if len(ps) == 1 && ps[0].Num != nil {
+					return TupleV{ps[0].Num, IfaceV{}}
+				}
+				panic(unsupported("strconv.Atoi of a structured string that is not a single number"))
+			}
 			v, err := strconv.Atoi(mustStr(args[0], "strconv.Atoi"))
 			if err != nil {
 				site := in.posOf(fr.Block.Instrs[fr.PC], fr)
@@ -750,6 +978,7 @@ func init() {
 	for k, v := range more {
 		intrinsics[k] = v
 	}
+	intrinsics["path/filepath.Ext"] = intrinsics["path.Ext"]
 }
 
 func (in *Interp) beUint(st *State, s SliceV, n int64) Value {
@@ -793,6 +1022,38 @@ func lockOp(lock, read bool) handler {
 				panic(pathEnd{"cut"})
 			}
 			st.Mutex[k] = false
+		}
+		return TupleV{}
+	}
+}
+
+// wgOp: ghost counter for sync.WaitGroup (single-goroutine model): Add(n), Done, Wait (must find the counter at 0,
+// otherwise the path would block for ever).
+func wgOp(kind int) handler {
+	return func(in *Interp, st *State, fr *Frame, fn *ssa.Function, args []Value) Value {
+		p, ok := args[0].(PtrV)
+		if !ok || p.Obj < 0 {
+			in.require(st, False, "nil WaitGroup")
+			panic(pathEnd{"panic"})
+		}
+		if st.WG == nil {
+			st.WG = map[int]int{}
+		}
+		k := lockKey(p)
+		switch kind {
+		case 0:
+			st.WG[k] += int(constI64(args[1], "WaitGroup.Add"))
+		case 1:
+			st.WG[k]--
+		case 2:
+			if st.WG[k] != 0 {
+				in.blocked(st, fr, fr.Block.Instrs[fr.PC], "WaitGroup.Wait with a non-zero counter")
+			}
+			return TupleV{}
+		}
+		if st.WG[k] < 0 {
+			in.require(st, False, "sync: negative WaitGroup counter")
+			panic(pathEnd{"panic"})
 		}
 		return TupleV{}
 	}
